@@ -386,23 +386,45 @@ func VerifC06Model(h *verifrt.H) {
 			} else {
 				h.Assert(err != nil, "set-size-on-missing-or-non-set-is-an-error")
 			}
-		case 9: // ShiftByKeys
-			k := c6keys[h.Choose("key", 2)]
-			resp, err := g.ShiftByKeys(ctx, &hydrapb.ShiftByKeysRequest{SwampName: gwSwamp, Keys: []string{k}})
+		case 9: // ShiftByKeys: one or two keys, possibly the same key twice
+			nk := h.Len("shiftKeys", 1, 2)
+			var ks []string
+			for i := 0; i < nk; i++ {
+				ks = append(ks, c6keys[h.Choose("key", 2)])
+			}
+			resp, err := g.ShiftByKeys(ctx, &hydrapb.ShiftByKeysRequest{SwampName: gwSwamp, Keys: ks})
 			if !m.exists {
 				h.Assert(err != nil || resp != nil && len(resp.Treasures) == 0, "shift-on-missing-swamp")
 				break
 			}
-			idx := m.find(k)
-			if idx < 0 {
+			// the model: every requested key that is stored is handed out exactly once
+			var wantKeys []string
+			var wantVals []c6val
+			for _, k := range ks {
+				if idx := m.find(k); idx >= 0 {
+					wantKeys, wantVals = append(wantKeys, k), append(wantVals, m.vals[idx])
+					m.del(k)
+				}
+			}
+			if len(wantKeys) == 0 {
 				h.Assert(err == nil && resp != nil && len(resp.Treasures) == 0, "shift-missing-key-returns-nothing")
 				if len(m.keys) == 0 {
 					m.exists = false // a shift that leaves the swamp empty removes it
 				}
 				break
 			}
-			h.Assert(err == nil && resp != nil && len(resp.Treasures) == 1 && resp.Treasures[0].Key == k && c6sameVal(resp.Treasures[0], m.vals[idx]), "shift-returns-the-record")
-			m.del(k)
+			h.Assert(err == nil && resp != nil && len(resp.Treasures) == len(wantKeys), "shift-returns-the-record")
+			if err == nil && resp != nil && len(resp.Treasures) == len(wantKeys) {
+				for i, k := range wantKeys {
+					found := false
+					for _, tr := range resp.Treasures {
+						if tr.Key == k && c6sameVal(tr, wantVals[i]) {
+							found = true
+						}
+					}
+					h.Assert(found, "shift-returns-the-record")
+				}
+			}
 		}
 		// the server and the model agree on whether the swamp exists after every request
 		ex, _ := hy.IsExistSwamp(0, name.Load(gwSwamp))
